@@ -40,6 +40,9 @@ pub mod h_completion;
 pub mod h_provk;
 pub mod h_cfgk;
 pub mod h_scank;
+pub mod h_impk;
+pub mod h_insk;
+pub mod h_dock;
 pub mod oracle { include!("gen/oracle.rs"); }
 
 pub mod registry;
